@@ -273,6 +273,21 @@ func (w *SubWorld) Subscribe(sid int) string {
 	return CanonLite(w.Root.ResolveString(req, "", vars))
 }
 
+// SubscriptionDoc returns the request text of subscriber sid (always with the
+// subscriber id passed through the variable $sid, so that one parsed document
+// can register several subscribers) and the operation name.
+func (w *SubWorld) SubscriptionDoc(selIndex int, topic string) (src, op string) {
+	tp := "null"
+	if topic != "" {
+		tp = strconv.Quote(topic)
+	}
+	src = "subscription S($sid: Int!) { watch(topic: " + tp + ", sid: $sid) " + SubSelections[selIndex].Sel + " }"
+	if f := SubSelections[selIndex].Frag; f != "" {
+		src += "\n" + f
+	}
+	return src, "S"
+}
+
 // Publish publishes event n on topic.
 func (w *SubWorld) Publish(topic string, n int) (int, error) {
 	var ev interface{}
